@@ -125,6 +125,9 @@ def run_case(case, ctx):
         labels.add('per_filter_aperture_tables')
     if len(set(case['theta'])) < len(case['theta']):
         labels.add('shared_angular_apertures')
+    if len(set(f['name'] for f in case['filters'])) < len(case['filters']):
+        labels.add('filter_listed_twice')
+    labels.add('stored_units_cube_%s_convolved_%s' % (case.get('cube_unit', 'mJy'), case.get('conv_unit', 'mJy')))
     if max(case['theta']) * dkpc[1] * 1000. > grid['apertures'][-1]:
         labels.add('beyond_largest_aperture')
     compared = 0
@@ -159,7 +162,7 @@ def run_case(case, ctx):
 
 @st.composite
 def cases(draw, thorough=False):
-    return draw(gen.fit_case_3d(max_models=10 if thorough else 6, max_filters=6 if thorough else 5))
+    return draw(gen.fit_case_3d(max_models=10 if thorough else 6, max_filters=6 if thorough else 5, repeat_filter=True))
 
 
 def run_large(case, ctx):
